@@ -5,6 +5,8 @@ C12 - Red Hat notation round-trips and rejects mismatching scores.
     outcome must be one of the outcomes the model admits).
 """
 
+import zlib
+
 from .. import core, observe, spaces, sweep
 from ..engine import product
 from ..engine.product import Block
@@ -106,7 +108,13 @@ def outcome(major, text):
     cls = {2: cvss.CVSS2, 3: cvss.CVSS3, 4: cvss.CVSS4}[major]
     n = str(major)
     try:
-        obj = cls.from_rh_vector(text)
+        if zlib.crc32(text.encode("utf-8", "surrogatepass")) % 8 == major:
+            # every eighth text per class is handed over as an instance of a str subclass
+            t = observe.Text(text)
+            t.origin = "somewhere"
+            obj = cls.from_rh_vector(t)
+        else:
+            obj = cls.from_rh_vector(text)
     except getattr(X, "CVSS%sRHMalformedError" % n):
         return "RHMALFORMED", None
     except getattr(X, "CVSS%sRHScoreDoesNotMatch" % n):
@@ -205,6 +213,25 @@ def _acc_task(t):
     return acc
 
 
+def _odd_prefixes():
+    """Valid bodies behind the prefix variants of C04 (digit look-alikes and the like) and valid
+    vectors wrapped the way they are quoted in reports: every one an invalid vector part."""
+    from . import c04
+    b3 = "AV:N/AC:L/PR:N/UI:N/S:U/C:H/I:H/A:H"
+    b4 = "AV:N/AC:L/AT:N/PR:N/UI:N/VC:H/VI:H/VA:H/SC:N/SI:N/SA:N"
+    out = {2: [], 3: [], 4: []}
+    for p in c04.PREFIXES:
+        if p not in ("CVSS:3.0/", "CVSS:3.1/"):
+            out[3].append(p + b3)
+        if p != "CVSS:4.0/":
+            out[4].append(p + b4)
+    for l, r in c04.WRAPS[:8]:
+        out[2].append(l + "AV:N/AC:L/Au:N/C:P/I:P/A:P" + r)
+        out[3].append(l + "CVSS:3.1/" + b3 + r)
+        out[4].append(l + "CVSS:4.0/" + b4 + r)
+    return out
+
+
 INVALID = {
     2: ["", "AV:N", "AV:N/AC:L/Au:N/C:P/I:P", "AV:N/AC:L/Au:N/C:P/I:P/A:P/", "AV:N/AC:L/Au:N/C:P/I:P/A:X",
         "AV:N/AC:L/Au:N/C:P/I:P/A:P/A:P", "CVSS:3.1/AV:N/AC:L/PR:N/UI:N/S:U/C:H/I:H/A:H",
@@ -287,10 +314,10 @@ def build_sets(thorough):
         (3, "canon"): [v for v, d, fam in v3all] if thorough else
         [v for v, d, fam in v3all if fam == "3.1"] + [v for v, d, fam in v3all if fam == "3.0"][::4],
         (4, "canon"): v4cover if not thorough else [v for v, d in v4all],
-        (2, "all"): score_cover("2", v2all, 1) + extra2 + INVALID[2],
+        (2, "all"): score_cover("2", v2all, 1) + extra2 + INVALID[2] + _odd_prefixes()[2],
         (3, "all"): score_cover("3.0", [(v, d) for v, d, fam in v3all if fam == "3.0"], 1) +
-        score_cover("3.1", [(v, d) for v, d, fam in v3all if fam == "3.1"], 1) + extra3 + INVALID[3],
-        (4, "all"): score_cover("4.0", v4all, 1) + extra4 + INVALID[4],
+        score_cover("3.1", [(v, d) for v, d, fam in v3all if fam == "3.1"], 1) + extra3 + INVALID[3] + _odd_prefixes()[3],
+        (4, "all"): score_cover("4.0", v4all, 1) + extra4 + INVALID[4] + _odd_prefixes()[4],
     }
 
 
